@@ -794,7 +794,27 @@ class CSemantics:
             if op[0] in ["+", "-"] and lhs.typ.is_pointer:
                 self.ensure_integer(rhs)
                 lhs = self.ensure_no_void_ptr(lhs)
-            rhs = self.coerce(rhs, result_typ)
+
+            if (
+                op != "="
+                and isinstance(lhs.typ, types.BasicType)
+                and isinstance(rhs.typ, types.BasicType)
+            ):
+                # 'a op= b' is 'a = a op b': the operation is performed in
+                # the type the binary operator would use. The code generator
+                # converts the left hand side to the type of the right hand
+                # side, and the result back.
+                lhs_typ = self.int_type if lhs.typ.is_promotable else lhs.typ
+                if op in ["<<=", ">>="]:
+                    calc_typ = lhs_typ
+                else:
+                    rhs = self.promote(rhs)
+                    calc_typ = self.get_common_type(
+                        lhs_typ, rhs.typ, location
+                    )
+                rhs = self.coerce(rhs, calc_typ)
+            else:
+                rhs = self.coerce(rhs, result_typ)
         elif op == ",":
             result_typ = rhs.typ
         elif op == "+":
